@@ -162,6 +162,8 @@ impl FileManager {
                     .create(true)
                     .truncate(false)
                     .open(file_name)?;
+                // without a LEN clause the record length is 128 bytes
+                let rec_len = if rec_len == 0 { 128 } else { rec_len };
                 self.handle_map
                     .insert(handle, FileInfo::new_random(file, rec_len));
             }
